@@ -41,6 +41,7 @@ def run_points(case, box=None, labels=None, queries=None, wall_s=300, state_hook
     queries = set(queries or [])
     P = C.plain_part_class(case["part"], case.get("part_binding"))
     out = {"points": [], "last": None, "crash": None, "qpoints": []}
+    budget = C.StepBudget(5 * 10 ** 6)
     old = signal.signal(signal.SIGALRM, _alarm)
     signal.alarm(int(wall_s * float(os.environ.get("PYXABMON_WALL_SCALE", "1") or 1)))
     try:
@@ -51,29 +52,40 @@ def run_points(case, box=None, labels=None, queries=None, wall_s=300, state_hook
         user_box = box_in
         out["box_ids_before"] = [id(user_box)] + [id(iv) for iv in user_box]
         cc = dict(c)
+        # hangs are decided on logical steps (PyXAB function entries per API call), as in the driver: a wall-clock
+        # watchdog alone would cost minutes per hanging run
+        budget.on()
+        budget.reset()
         algo = build_with_box(cc, P, user_box)
         out["algo"] = algo
         for i, t in enumerate(labels):
+            budget.reset()
             p = algo.pull(t)
             out["points"].append(list(p) if isinstance(p, (list, tuple)) else p)
             r = float(seq[i]) if seq is not None else fn(i, p)
+            budget.reset()
             algo.receive_reward(t, r)
             if i in queries:
                 try:
+                    budget.reset()
                     q = algo.get_last_point()
                     out["qpoints"].append(list(q) if isinstance(q, (list, tuple)) else q)
                 except Exception:
                     out["qpoints"].append("ERR")  # asked too early (known findings of C01): recorded, run goes on
         if not case.get("no_last"):
+            budget.reset()
             q = algo.get_last_point()
             out["last"] = list(q) if isinstance(q, (list, tuple)) else q
         out["user_box"] = user_box
         out["box_ids_after"] = [id(user_box)] + [id(iv) for iv in user_box]
     except Watchdog:
         out["crash"] = "Watchdog"
+    except C.StepBudgetExceeded:
+        out["crash"] = "StepBudgetExceeded: more than 5e6 PyXAB function entries in one API call (hang)"
     except Exception as e:
         out["crash"] = "%s: %s" % (type(e).__name__, str(e)[:100])
     finally:
+        budget.off()
         signal.alarm(0)
         signal.signal(signal.SIGALRM, old)
     return out
